@@ -218,6 +218,7 @@ inductive StepPre (P : Prepared) : R → R → Prop
   | initData (r : R) (input : Val) : StepPre P r ({ r.1 with data := initData P input }, r.2)
   | stageData (r : R) (step stage out : String) (v : Val) :
       StepPre P r ({ r.1 with data := setStageData r.1.data step stage out v }, r.2)
+  | setFinished (r : R) (f : List (String × String)) : StepPre P r ({ r.1 with finished := f }, r.2)
   | drain (r : R) : StepPre P r ({ r.1 with errs := 0 }, r.2)
   | die (r : R) (site : PanicSite) : StepPre P r (die r (.panic site))
   | sendErr (r : R) (k : ErrKind) : StepPre P r (sendErr P.errCap r k)
@@ -407,6 +408,22 @@ theorem markStageUnres_reachPre (step stage : String) (r : R) :
   · rename_i g hok; exact .single (.resolveOk r _ _ g hok)
   · exact .single (.die _ _)
 
+theorem markRemainingOne_reachPre (step : String) (r : R) (stage : String) :
+    Star (StepPre P) r (markRemainingOne P step r stage) := by
+  unfold markRemainingOne
+  split
+  · exact .refl _
+  · exact (markOutputsUnres_reachPre (P := P) step stage none r).trans (markStageUnres_reachPre step stage _)
+
+theorem markRemaining_reachPre (step : String) (r : R) : Star (StepPre P) r (markRemaining P step r) := by
+  unfold markRemaining
+  generalize P.stagesOf step = l
+  induction l generalizing r with
+  | nil => exact .refl r
+  | cons x rest ih =>
+    rw [List.foldl_cons]
+    exact (markRemainingOne_reachPre step r x).trans (ih _)
+
 /-- preparatory steps followed by `notifySteps` steps -/
 def Decomp (P : Prepared) (fns : Fns) (gb : Graph String) (kn : Prop) (a c : R) : Prop :=
   ∃ b, Star (StepPre P) a b ∧ Star (StepN P fns gb kn) b c
@@ -418,9 +435,19 @@ theorem Decomp.tailN {a b c : R} (h : Decomp P fns gb kn a b) (h2 : Star (StepN 
   obtain ⟨m, h1, h3⟩ := h
   exact ⟨m, h1, h3.trans h2⟩
 
+/-- the end of `onStageComplete` after preparatory steps `a → r`: marking (preparatory), then `notifySteps` -/
+theorem finishStage_decomp (ord : Order) (hord : kn → OrdOK ord) (step : String) (complete : Bool) {a : R} (r : R)
+    (h0 : Star (StepPre P) a r) (hb : GLe gb a.1.dag) :
+    Decomp P fns gb kn a (finishStage P fns ord step complete r) := by
+  unfold finishStage
+  split
+  · have h1 := h0.trans (markRemaining_reachPre (P := P) step r)
+    exact ⟨_, h1, notifySteps_reachN ord hord _ _ (hb.trans (starPre_gle h1 hb.inv))⟩
+  · exact ⟨_, h0, notifySteps_reachN ord hord _ _ (hb.trans (starPre_gle h0 hb.inv))⟩
+
 theorem onStageCompleteBody_decomp (ord : Order) (hord : kn → OrdOK ord) (step prev : String)
-    (out : Option (String × Val)) (r : R) (hb : GLe gb r.1.dag) :
-    Decomp P fns gb kn r (onStageCompleteBody P fns ord step prev out r) := by
+    (out : Option (String × Val)) (complete : Bool) (r : R) (hb : GLe gb r.1.dag) :
+    Decomp P fns gb kn r (onStageCompleteBody P fns ord step prev out complete r) := by
   unfold onStageCompleteBody
   dsimp only
   split
@@ -430,10 +457,10 @@ theorem onStageCompleteBody_decomp (ord : Order) (hord : kn → OrdOK ord) (step
   · exact .pre (.single (.die _ _))
   · exact .pre (starPre_sendErr_cancel _ _)
   rename_i g hok
-  have h1 : Star (StepPre P) r ({ r.1 with dag := g }, r.2) := .single (.resolveOk r _ _ g hok)
-  have hb1 : GLe gb g := hb.trans (GLe.resolve hb.inv hok)
+  have h1 : Star (StepPre P) r ({ r.1 with dag := g, finished := (step, prev) :: r.1.finished }, r.2) :=
+    (Star.single (.resolveOk r _ _ g hok)).tail (.setFinished ({ r.1 with dag := g }, r.2) _)
   split
-  · exact ⟨_, h1, notifySteps_reachN ord hord _ _ hb1⟩
+  · exact finishStage_decomp ord hord step complete _ h1 hb
   rename_i oid v
   split
   · exact .pre (h1.trans (starPre_sendErr_cancel _ _))
@@ -442,13 +469,14 @@ theorem onStageCompleteBody_decomp (ord : Order) (hord : kn → OrdOK ord) (step
   · exact .pre (h1.tail (.die _ _))
   · exact .pre (h1.trans (starPre_sendErr_cancel _ _))
   rename_i g2 hok2
-  have h2 : Star (StepPre P) r ({ r.1 with dag := g2 }, r.2) :=
-    h1.tail (.resolveOk ({ r.1 with dag := g }, r.2) _ _ g2 hok2)
-  have h3 := h2.trans (markOutputsUnres_reachPre (P := P) step prev (some oid) ({ r.1 with dag := g2 }, r.2))
+  have h2 : Star (StepPre P) r ({ r.1 with dag := g2, finished := (step, prev) :: r.1.finished }, r.2) :=
+    h1.tail (.resolveOk ({ r.1 with dag := g, finished := (step, prev) :: r.1.finished }, r.2) _ _ g2 hok2)
+  have h3 := h2.trans (markOutputsUnres_reachPre (P := P) step prev (some oid)
+    ({ r.1 with dag := g2, finished := (step, prev) :: r.1.finished }, r.2))
   split
   · exact .pre h3
   · have h4 := h3.tail (.stageData _ step prev oid v)
-    exact ⟨_, h4, notifySteps_reachN ord hord _ _ (hb.trans (starPre_gle h4 hb.inv))⟩
+    exact finishStage_decomp ord hord step complete _ h4 hb
 
 theorem react_decomp (ord : Order) (hord : kn → OrdOK ord) (s : LoopState) (e : Event) (hs : s.dag.Inv) :
     Decomp P fns s.dag kn (s, []) (react P fns ord s e) := by
@@ -471,7 +499,8 @@ theorem react_decomp (ord : Order) (hord : kn → OrdOK ord) (s : LoopState) (e 
       exact ⟨_, h2, notifySteps_reachN ord hord _ _ (starPre_gle h2 hs)⟩
   · split
     · exact .pre (.refl _)
-    · exact (onStageCompleteBody_decomp ord hord _ _ _ _ hb).tailN (checkDeadlock_reachN _ _ _)
+    · exact (onStageCompleteBody_decomp ord hord _ _ _ _ _ hb).tailN (checkDeadlock_reachN _ _ _)
+  · exact (onStageCompleteBody_decomp ord hord _ _ _ _ _ hb).tailN (checkDeadlock_reachN _ _ _)
   · rename_i step stage
     dsimp only
     have h1 := (markOutputsUnres_reachPre (P := P) step stage none (s, [])).trans
@@ -568,6 +597,12 @@ theorem stepN_acts {a b : R} (h : StepN P fns gb kn a b) : ∀ x ∈ b.2, x ∈ 
        · exact .inr trivial)
 
 theorem stepN_data {a b : R} (h : StepN P fns gb kn a b) : b.1.data = a.1.data := by
+  cases h
+  all_goals try simp only [emit, Arca.Model.die, Arca.Model.sendErr, doCancel]
+  all_goals repeat' split
+  all_goals rfl
+
+theorem stepN_finished {a b : R} (h : StepN P fns gb kn a b) : b.1.finished = a.1.finished := by
   cases h
   all_goals try simp only [emit, Arca.Model.die, Arca.Model.sendErr, doCancel]
   all_goals repeat' split
@@ -739,6 +774,11 @@ theorem starN_data {a b : R} (h : Star (StepN P fns gb kn) a b) : b.1.data = a.1
   | refl => rfl
   | tail _ s ih => exact (stepN_data s).trans ih
 
+theorem starN_finished {a b : R} (h : Star (StepN P fns gb kn) a b) : b.1.finished = a.1.finished := by
+  induction h with
+  | refl => rfl
+  | tail _ s ih => exact (stepN_finished s).trans ih
+
 theorem notifySteps_quiet (ord : Order) (f : Nat) (r : R) (hinv : r.1.dag.Inv) :
     (notifySteps P fns ord f r).1.data = r.1.data ∧ SONoNew P r.1.dag (notifySteps P fns ord f r).1.dag := by
   have h := notifySteps_reachN (P := P) (fns := fns) (gb := r.1.dag) (kn := False) ord (fun h => h.elim) f r
@@ -753,17 +793,26 @@ theorem checkDeadlock_quiet (retries : Nat) (busy : Bool) (r : R) :
   repeat' split
   all_goals exact ⟨rfl, rfl, rfl⟩
 
+theorem checkDeadlock_finished (retries : Nat) (busy : Bool) (r : R) :
+    (checkDeadlock P retries busy r).1.finished = r.1.finished := by
+  unfold checkDeadlock
+  simp only [emit, Arca.Model.sendErr, doCancel]
+  repeat' split
+  all_goals rfl
+
 /-- a transformation that moves the graph forward, keeps the data, never revives and resolves nothing -/
 structure Quiet (r r' : R) : Prop where
   gle : GLe r.1.dag r'.1.dag
   data : r'.1.data = r.1.data
   dead : r.1.dead = true → r'.1.dead = true
   nonew : NoNewRes r.1.dag r'.1.dag
+  fin : r'.1.finished = r.1.finished
 
-theorem Quiet.refl {r : R} (h : r.1.dag.Inv) : Quiet r r := ⟨GLe.refl h, rfl, id, fun _ h => h⟩
+theorem Quiet.refl {r : R} (h : r.1.dag.Inv) : Quiet r r := ⟨GLe.refl h, rfl, id, fun _ h => h, rfl⟩
 
 theorem Quiet.trans {a b c : R} (h1 : Quiet a b) (h2 : Quiet b c) : Quiet a c :=
-  ⟨h1.gle.trans h2.gle, h2.data.trans h1.data, fun h => h2.dead (h1.dead h), fun x h => h1.nonew x (h2.nonew x h)⟩
+  ⟨h1.gle.trans h2.gle, h2.data.trans h1.data, fun h => h2.dead (h1.dead h), fun x h => h1.nonew x (h2.nonew x h),
+    h2.fin.trans h1.fin⟩
 
 /-- the body of the loop of `markOutputsUnres` -/
 def markOne (step stage : String) (skip : Option String) (r : R) (o : String) : R :=
@@ -799,10 +848,10 @@ theorem markOne_props (step stage : String) (skip : Option String) (r : R) (o : 
     simp [this] at hh
   split
   · rename_i g hok
-    refine ⟨⟨GLe.resolve hinv hok, rfl, id, NoNewRes.resolve_unres hok⟩, fun _ _ => ?_⟩
+    refine ⟨⟨GLe.resolve hinv hok, rfl, id, NoNewRes.resolve_unres hok, rfl⟩, fun _ _ => ?_⟩
     obtain ⟨n', hn', hs'⟩ := Graph.resolve_status_self _ _ _ _ (by decide) hok
     exact not_resolved_of_unres ⟨n', hn', hs'⟩
-  · exact ⟨⟨GLe.refl hinv, rfl, fun _ => rfl, fun _ h => h⟩, fun h => by cases h⟩
+  · exact ⟨⟨GLe.refl hinv, rfl, fun _ => rfl, fun _ h => h, rfl⟩, fun h => by cases h⟩
 
 theorem foldl_markOne_props (step stage : String) (skip : Option String) (l : List String) :
     ∀ r : R, r.1.dag.Inv →
@@ -842,8 +891,37 @@ theorem markStageUnres_quiet (step stage : String) (r : R) (hinv : r.1.dag.Inv) 
   · exact Quiet.refl hinv
   split
   · rename_i g hok
-    exact ⟨GLe.resolve hinv hok, rfl, id, NoNewRes.resolve_unres hok⟩
-  · exact ⟨GLe.refl hinv, rfl, fun _ => rfl, fun _ h => h⟩
+    exact ⟨GLe.resolve hinv hok, rfl, id, NoNewRes.resolve_unres hok, rfl⟩
+  · exact ⟨GLe.refl hinv, rfl, fun _ => rfl, fun _ h => h, rfl⟩
+
+theorem markRemainingOne_quiet (step : String) (r : R) (stage : String) (hinv : r.1.dag.Inv) :
+    Quiet r (markRemainingOne P step r stage) := by
+  unfold markRemainingOne
+  split
+  · exact Quiet.refl hinv
+  · have q1 := (markOutputsUnres_props (P := P) step stage none r hinv).1
+    exact q1.trans (markStageUnres_quiet step stage _ q1.gle.inv)
+
+/-- `markRemainingStagesUnresolvable` moves the graph forward, keeps the data and resolves nothing -/
+theorem markRemaining_quiet (step : String) (r : R) (hinv : r.1.dag.Inv) : Quiet r (markRemaining P step r) := by
+  unfold markRemaining
+  generalize P.stagesOf step = l
+  induction l generalizing r with
+  | nil => exact Quiet.refl hinv
+  | cons x rest ih =>
+    rw [List.foldl_cons]
+    have q1 := markRemainingOne_quiet (P := P) step r x hinv
+    exact q1.trans (ih _ q1.gle.inv)
+
+theorem finishStage_quiet (ord : Order) (step : String) (complete : Bool) (r : R) (hinv : r.1.dag.Inv) :
+    (finishStage P fns ord step complete r).1.data = r.1.data ∧
+      SONoNew P r.1.dag (finishStage P fns ord step complete r).1.dag := by
+  unfold finishStage
+  split
+  · have q := markRemaining_quiet (P := P) step r hinv
+    obtain ⟨h1, h2⟩ := notifySteps_quiet (P := P) (fns := fns) ord (notifyFuel P) (markRemaining P step r) q.gle.inv
+    exact ⟨h1.trans q.data, q.nonew.so.trans h2⟩
+  · exact notifySteps_quiet ord _ r hinv
 
 end DataSteps
 
@@ -986,6 +1064,8 @@ an output they report is declared for that stage (what C12 guarantees of the pro
 def EventDeclared (P : Prepared) : Event → Prop
   | .stageChange step (some prev) out _ =>
       P.declares step prev ∧ ∀ oid v, out = some (oid, v) → oid ∈ P.outputsOf step prev
+  | .stepComplete step prev out _ =>
+      P.declares step prev ∧ ∀ oid v, out = some (oid, v) → oid ∈ P.outputsOf step prev
   | _ => True
 
 /-- what the environment guarantees about an event delivered in state `s`: callbacks name declared stages
@@ -1022,10 +1102,10 @@ theorem cancel_sendErr_same (cap : Nat) (r : R) (k : ErrKind) :
   all_goals exact ⟨rfl, rfl⟩
 
 theorem onStageCompleteBody_data (hP : P.WF) (fns : Fns) (ord : Order) (step prev : String)
-    (out : Option (String × Val)) (s : LoopState) (acts : List Action) (hinv : s.dag.Inv)
+    (out : Option (String × Val)) (complete : Bool) (s : LoopState) (acts : List Action) (hinv : s.dag.Inv)
     (hdead : s.dead = false) (hd : DataInv P s) (hm : DataMap s) (hdecl : P.declares step prev)
     (hout : ∀ oid v, out = some (oid, v) → oid ∈ P.outputsOf step prev) :
-    DataInv P (onStageCompleteBody P fns ord step prev out (s, acts)).1 := by
+    DataInv P (onStageCompleteBody P fns ord step prev out complete (s, acts)).1 := by
   unfold onStageCompleteBody
   dsimp only
   split
@@ -1045,34 +1125,35 @@ theorem onStageCompleteBody_data (hP : P.WF) (fns : Fns) (ord : Order) (step pre
   have hinv1 : g.Inv := (GLe.resolve hinv hok).inv
   split
   · -- no output
-    obtain ⟨h1, h2⟩ := notifySteps_quiet (P := P) (fns := fns) ord (notifyFuel P) ({ s with dag := g }, acts) hinv1
+    obtain ⟨h1, h2⟩ := finishStage_quiet (P := P) (fns := fns) ord step complete
+      ({ s with dag := g, finished := (step, prev) :: s.finished }, acts) hinv1
     exact dataInv_of_quiet hdead hd h1 (hso1.trans h2)
   rename_i oid v
   split
-  · obtain ⟨h1, h2⟩ := cancel_sendErr_same P.errCap ({ s with dag := g }, acts) .getOutputNode
+  · obtain ⟨h1, h2⟩ := cancel_sendErr_same P.errCap ({ s with dag := g, finished := (step, prev) :: s.finished }, acts) .getOutputNode
     exact dataInv_of_quiet hdead hd h2 (by rw [h1]; exact hso1)
   split
   · exact dataInv_of_dead rfl
   · exact dataInv_of_dead rfl
-  · obtain ⟨h1, h2⟩ := cancel_sendErr_same P.errCap ({ s with dag := g }, acts) .resolveOutputNode
+  · obtain ⟨h1, h2⟩ := cancel_sendErr_same P.errCap ({ s with dag := g, finished := (step, prev) :: s.finished }, acts) .resolveOutputNode
     exact dataInv_of_quiet hdead hd h2 (by rw [h1]; exact hso1)
   rename_i g2 hok2
   have hinv2 : g2.Inv := (GLe.resolve hinv1 hok2).inv
-  obtain ⟨q, pm⟩ := markOutputsUnres_props (P := P) step prev (some oid) ({ s with dag := g2 }, acts) hinv2
+  obtain ⟨q, pm⟩ := markOutputsUnres_props (P := P) step prev (some oid) ({ s with dag := g2, finished := (step, prev) :: s.finished }, acts) hinv2
   split
   · rename_i hdd
     exact dataInv_of_dead hdd
   rename_i hal
-  have hal : (markOutputsUnres P step prev (some oid) ({ s with dag := g2 }, acts)).1.dead = false := by
+  have hal : (markOutputsUnres P step prev (some oid) ({ s with dag := g2, finished := (step, prev) :: s.finished }, acts)).1.dead = false := by
     simpa using hal
-  obtain ⟨h1, h2⟩ := notifySteps_quiet (P := P) (fns := fns) ord (notifyFuel P)
-    ({ (markOutputsUnres P step prev (some oid) ({ s with dag := g2 }, acts)).1 with
-        data := setStageData (markOutputsUnres P step prev (some oid) ({ s with dag := g2 }, acts)).1.data
+  obtain ⟨h1, h2⟩ := finishStage_quiet (P := P) (fns := fns) ord step complete
+    ({ (markOutputsUnres P step prev (some oid) ({ s with dag := g2, finished := (step, prev) :: s.finished }, acts)).1 with
+        data := setStageData (markOutputsUnres P step prev (some oid) ({ s with dag := g2, finished := (step, prev) :: s.finished }, acts)).1.data
           step prev oid v },
-      (markOutputsUnres P step prev (some oid) ({ s with dag := g2 }, acts)).2) q.gle.inv
+      (markOutputsUnres P step prev (some oid) ({ s with dag := g2, finished := (step, prev) :: s.finished }, acts)).2) q.gle.inv
   intro _ id it hit hk hres
   rw [h1]
-  have hdat : (markOutputsUnres P step prev (some oid) ({ s with dag := g2 }, acts)).1.data = s.data := q.data
+  have hdat : (markOutputsUnres P step prev (some oid) ({ s with dag := g2, finished := (step, prev) :: s.finished }, acts)).1.data = s.data := q.data
   obtain ⟨top, htop⟩ := hm
   rw [hdat, htop]
   -- resolved at the end => resolved after `markOutputsUnres`
@@ -1149,8 +1230,14 @@ theorem react_data_inv (P : Prepared) (fns : Fns) (ord : Order) (hP : P.WF) (s :
     split
     · exact hd
     · rename_i step out busy _ p
-      obtain ⟨h1, h2, h3⟩ := checkDeadlock_quiet (P := P) 3 busy (onStageCompleteBody P fns ord step p out (s, []))
-      exact dataInv_congr (onStageCompleteBody_data hP fns ord step p out s [] h.inv hdead hd hm hdecl.1 hdecl.2) h1 h2 h3
+      obtain ⟨h1, h2, h3⟩ := checkDeadlock_quiet (P := P) 3 busy (onStageCompleteBody P fns ord step p out false (s, []))
+      exact dataInv_congr (onStageCompleteBody_data hP fns ord step p out false s [] h.inv hdead hd hm hdecl.1 hdecl.2)
+        h1 h2 h3
+  · -- stepComplete
+    rename_i step prev out busy
+    obtain ⟨h1, h2, h3⟩ := checkDeadlock_quiet (P := P) 3 busy (onStageCompleteBody P fns ord step prev out true (s, []))
+    exact dataInv_congr (onStageCompleteBody_data hP fns ord step prev out true s [] h.inv hdead hd hm hdecl.1 hdecl.2)
+      h1 h2 h3
   · -- stageFail
     rename_i step stage
     dsimp only
